@@ -19,14 +19,17 @@ import (
 type verifClockHandler struct {
 	verifSeqHandler
 	lastDone time.Time
+	done     int // requests completed so far
 }
 
 func (h *verifClockHandler) HandleOpenDir(ctx *Context[verifState], path string) bool {
 	h.lastDone = time.Now()
+	h.done++
 	return true
 }
 func (h *verifClockHandler) HandleReadDirEntry(ctx *Context[verifState]) fs.FileInfo {
 	h.lastDone = time.Now()
+	h.done++
 	return nil
 }
 
@@ -46,10 +49,19 @@ func VerifC16_Rearm() {
 	}
 	h := &verifClockHandler{}
 	conn := &verifstub.Conn{In: in, ShortBudget: 1, EndErr: verifrt.Bool("reset"), DeadlineErr: verifrt.Bool("deadline-can-fail")}
-	reads, bad := 0, 0
+	reads, bad, stretched := 0, 0, 0
+	var reqStart time.Time // when the first read of the request being received was issued
+	reqOf := -1
 	conn.OnRead = func(active time.Time) {
 		now := time.Now()
 		reads++
+		if reqOf != h.done {
+			reqOf, reqStart = h.done, now
+		}
+		if T > 0 && !active.IsZero() && active.Sub(reqStart) > T {
+			// the deadline moved while one request was being received: a request trickling in would never be cut
+			stretched++
+		}
 		if T > 0 {
 			// a deadline is in force, it was armed after the previous request completed, and it is not further away than T
 			if active.IsZero() || active.Sub(now) > T || (!h.lastDone.IsZero() && active.Sub(h.lastDone) < T) {
@@ -66,6 +78,7 @@ func VerifC16_Rearm() {
 		return
 	}
 	verifrt.Assert(bad == 0, "rearm.every-read-under-fresh-deadline")
+	verifrt.Assert(stretched == 0, "rearm.one-deadline-per-request")
 	if conn.DeadlineErr {
 		return
 	}
